@@ -398,8 +398,12 @@ func (core *JApiCore) addRequest(d *directive.Directive) *jerr.JApiError {
 		}
 
 	case sn == notation.SchemaNotationRegex && typ == "" && d.BodyCoords.IsSet():
-		if s, err = catalog.NewExchangeRegexSchema(d.BodyCoords.Read()); err == nil {
-			err = core.catalog.AddRequestBody(s, bodyFormat, *d)
+		var rs *catalog.ExchangeRegexSchema
+		if rs, err = catalog.NewExchangeRegexSchema(d.BodyCoords.Read()); err == nil {
+			// The regular expression is compiled lazily, it has to be checked here.
+			if err = rs.Check(); err == nil {
+				err = core.catalog.AddRequestBody(rs, bodyFormat, *d)
+			}
 		}
 		var e kit.Error
 		if errors.As(err, &e) {
